@@ -825,7 +825,7 @@ pub fn execute(sc: &Scenario, mode: Mode, trace: Option<&mut Vec<Value>>) -> Run
   } else {
     pool::Schedule::Seeded { rng: Rng::new(sc.knobs.sched_seed), policy: pool::Policy::Uniform { stick: 0 } }
   };
-  pool::install(pool::PoolConfig { workers: sc.knobs.workers, schedule });
+  pool::install(pool::PoolConfig { workers: sc.knobs.workers, schedule, quantum_mean: 0 });
   samlang_heap::verif_hooks::set_gc_overrides(sc.knobs.gc_slice, sc.knobs.gc_sweep);
 
   let mut result = RunResult::default();
